@@ -87,6 +87,18 @@ class Accumulator(Module):
         self._neg = nn.ParameterList()
         self._neg_cache.cache_clear()
 
+    def _load_from_state_dict(self, state_dict, prefix, *args, **kwargs) -> None:
+        # the number of accumulated updates is part of the saved state, match it
+        for name in ("_pos", "_neg"):
+            keys = [k for k in state_dict if k.startswith(f"{prefix}{name}.")]
+            keys.sort(key=lambda k: int(k[len(prefix) + len(name) + 1 :]))
+            setattr(self, name, nn.ParameterList())
+            for k in keys:
+                getattr(self, name).append(torch.empty_like(state_dict[k]))
+        self._pos_cache.cache_clear()
+        self._neg_cache.cache_clear()
+        Module._load_from_state_dict(self, state_dict, prefix, *args, **kwargs)
+
     def reduction(
         self, fn: Callable[[torch.Tensor, int], torch.Tensor] | None = None
     ) -> None:
